@@ -276,7 +276,7 @@ def main(ctx, replay):
     rng = random.Random(ctx.seed)
     info = C.prologue(ctx)
     if info["hbin"] is None:
-        raise RuntimeError("harness build failed:\n" + info.get("go_log", ""))
+        raise C.HarnessBuildFailed(info.get("go_log", ""))
     assumptions = [
         "net/http's request parsing is library behaviour: the model is applied to the r.Header snapshot taken from the very request object ingress.Server gets",
         "header values are valid UTF-8 (the statement's quantifier); encoding/json escaping in SQLite and in the Pull API is validated end to end, not modelled",
